@@ -59,13 +59,16 @@ def domain_size(q):
     return n
 
 
-def cache_index_findings(run, cases):
+def cache_index_findings(run, cases, traces=None):
     """Which of the rejected query-family executions are instances of the open finding F2 (wrong rows with caching
     enabled, caused by the incomplete descent of IndexedCache.retrieve, F1)?  Call-site scoping, decided by TLC:
     (a) the same case with caching disabled throughout is accepted by TraceQuery, and
     (b) re-executed with every operator-cache insert/retrieve traced, at least one retrieval of that very execution
         is rejected by the reference store (TraceIndex, Judge = ref) with clause retrieve.missing, and no retrieval
-        or check is rejected in any other way.
+        or check is rejected in any other way, and
+    (c) where stage B3 of the mechanism model applies (events flagged b3): the model with the code's descent predicts
+        the observed rows exactly, and the same model with the complete descent yields the denotation's rows - the
+        wrong answer is the consequence of the descent and of nothing else.
     Returns (finding, set of covered case ids)."""
     f = next((x for x in load_findings() if x["id"] == "F2"), None)
     cases = [c for c in cases if c.get("family", "query") == "query"]
@@ -76,7 +79,7 @@ def cache_index_findings(run, cases):
         off = copy.deepcopy(c)
         off["evs"] = [{"op": "cfg", "caching": False}] + \
                      [dict(e, caching=False) if e["op"] == "cfg" else
-                      dict(e, **{k: e[k] + 1 for k in ("eqto", "eqbag") if e.get(k, 0) > 0}) for e in off["evs"]]
+                      dict(e, b3=False, **{k: e[k] + 1 for k in ("eqto", "eqbag") if e.get(k, 0) > 0}) for e in off["evs"]]
         offs.append(off)
     n0 = run.cases
     t_off = run.replay(offs)
@@ -96,7 +99,18 @@ def cache_index_findings(run, cases):
         rej = run.validate_with("TraceIndex", ts, dict(NKeys=nk, NVals=nv, PreferWildcard=True, Judge="ref"), count=False)
         for tid, rs in rej.items():
             (missing if rs[0]["clause"] == "retrieve.missing" else other).add(owner[tid])
-    return f, missing - other
+    covered = missing - other
+    b3 = [t for t in (traces or []) if t["id"] in covered and any(e.get("b3") for e in t["evs"])]
+    if b3:
+        drifted = {d["id"] for d in run.drift if d["clause"] == "drift.order-b3"}
+        slim = [{k: v for k, v in t.items() if k not in ("build_exc", "build_tb")} for t in b3]
+        rej = run.validate_with("TraceQuery", slim, dict(AndLeftTrueNeedsFalseSet=True, PreferWildcardB3=False, B3Judge="sem"),
+                                count=False)
+        not_descent = {tid for tid, rs in rej.items() if any(r["clause"] == "drift.b3-wrong-with-this-descent" for r in rs)}
+        covered -= (drifted | not_descent) & {t["id"] for t in b3}
+        run.extra["f2_cases_explained_by_stage_b3"] = run.extra.get("f2_cases_explained_by_stage_b3", 0) + \
+            len({t["id"] for t in b3} - drifted - not_descent)
+    return f, covered
 
 
 class QueryCheck:
@@ -142,7 +156,7 @@ class QueryCheck:
             if _os.environ.get("VERIF_DEBUG_DRIFT") and run.drift:
                 json.dump([{"drift": d, "trace": tr_by_id.get(d["id"])} for d in run.drift[:20]],
                           open("/tmp/drift.json", "w"))
-            f2, covered = (None, set()) if classify else cache_index_findings(run, [by_id[tid] for tid in rej])
+            f2, covered = (None, set()) if classify else cache_index_findings(run, [by_id[tid] for tid in rej], traces)
             for tid, rs in rej.items():
                 t = tr_by_id[tid]
                 finding = classify(by_id[tid], t, rs) if classify else (f2 if tid in covered else None)
@@ -178,7 +192,7 @@ def check_C01(tier, seed):
     quick = tier == "quick"
     # Layer B against Layer A: the mechanism model yields exactly the filter of the domain, in order, each once
     run.mc("MechCheck", "mech-exact", constants=dict(G="G12", NV=1, LeafLimit=24 if quick else 49, MaxLeaves=2,
-                                                      MaxNot=1 if quick else 2, NeedNot=False, AndLeftTrueNeedsFalseSet=True),
+                                                      MaxNot=1 if quick else 2, NeedNot=False, AndLeftTrueNeedsFalseSet=True, PreferWildcardB3=True),
            invariants=("MechEqualsSem",))
     progs = run.export("GenQuery", "G1-bfs", "PROG", constants=dict(
         G="G12", NV=1, LeafLimit=12 if quick else 49, MaxLeaves=2, MaxNot=1 if quick else 2, NeedNot=False),
@@ -251,11 +265,11 @@ def check_C02(tier, seed):
     rng = qc.rng
     quick = tier == "quick"
     run.mc("MechCheck", "mech-rows", constants=dict(G="G12", NV=2, LeafLimit=12 if quick else 24, MaxLeaves=2,
-                                                     MaxNot=1, NeedNot=False, AndLeftTrueNeedsFalseSet=True),
+                                                     MaxNot=1, NeedNot=False, AndLeftTrueNeedsFalseSet=True, PreferWildcardB3=True),
            invariants=("MechEqualsSem", "Mech2EqualsSem"))
     # stage B2 on and_/or_ trees that mix the pairs of three variables (partial bindings, projected selections)
     run.mc("MechCheck", "mech-dedup", constants=dict(G="G3v", NV=3, LeafLimit=6, MaxLeaves=3 if quick else 4, MaxNot=0,
-                                                      NeedNot=False, AndLeftTrueNeedsFalseSet=True), invariants=("Mech2EqualsSem",))
+                                                      NeedNot=False, AndLeftTrueNeedsFalseSet=True, PreferWildcardB3=True), invariants=("Mech2EqualsSem",))
     for nv in (2, 3):
         progs = _programs(run, nv, quick, sim_quick=800, sim_full=10000, leaf_quick=9 if nv == 2 else 8,
                           leaf_full=24 if nv == 2 else 16)
@@ -276,14 +290,20 @@ def check_C02(tier, seed):
             shaped = [p for p in three if p["cond"]["k"] == "or" and p["cond"]["l"]["k"] == "and"
                       and p["desc"] == "entity"]
             progs += shaped * (6 if quick else 10)
+            # left-deep chains of four conditions: and_/or_ nested under and_/or_ (what an operator requires of its child
+            # is passed down through every level)
+            deep = run.export("GenQuery", "G2n-bfs", "PROG", constants=dict(G="G2n", NV=2, LeafLimit=4 if quick else 6, MaxLeaves=4,
+                                                                          MaxNot=0, NeedNot=False), invariants=("Export", "WellFormed"))
+            deep = [p for p in deep if count_nodes(p["cond"], "cmp") == 4]
+            progs += rng.sample(deep, min(len(deep), 1500 if quick else 30000))
         for p in progs:
             for _ in range(1 if quick else 2):
                 W, doms = _world_and_doms(rng, nv, quick)
                 q = mk_query(p, doms, declare="random")
                 # a second object of the same query evaluated with the result caches off: stage B2 of the mechanism
                 # model predicts its exact row sequence (Layer B binding)
-                qc.add(W, [q, copy.deepcopy(q)], [drain_ev(1), {"op": "cfg", "caching": False}, dict(drain_ev(2, eqto=1), b2=True)],
-                       dump_graph=True)
+                qc.add(W, [q, copy.deepcopy(q)], [dict(drain_ev(1), b3=True), {"op": "cfg", "caching": False},
+                                                  dict(drain_ev(2, eqto=1), b2=True)], dump_graph=True)
     qc.execute(_nontrivial_rows)
     return run.finish()
 
@@ -310,7 +330,7 @@ def check_C03(tier, seed):
     quick = tier == "quick"
     # Layer B: Not() as a construction-time rewrite (De Morgan, flag toggling, operator table) preserves the complement
     run.mc("MechCheck", "mech-negation", constants=dict(G="G12", NV=1, LeafLimit=16 if quick else 30, MaxLeaves=2, MaxNot=2,
-                                                         NeedNot=True, AndLeftTrueNeedsFalseSet=True), invariants=("MechEqualsSem",))
+                                                         NeedNot=True, AndLeftTrueNeedsFalseSet=True, PreferWildcardB3=True), invariants=("MechEqualsSem",))
     for nv in (1, 2):
         progs = _programs(run, nv, quick, sim_quick=600, sim_full=8000, leaf_full=30 if nv == 1 else 20)
         if quick:
@@ -818,7 +838,7 @@ CHECKS["C04"] = check_C04
 
 
 # ---------------------------------------------------------------------- C05
-def _c05_events(rng=None):
+def _c05_events(rng=None, b3=False):
     # where the two query objects are constructed: before the history (caching enabled), or as steps of it under a
     # configuration of their own
     pre = rng.choice([[], [], [("off", 1), ("off", 2)], [("off", 1), ("on", 2)], [("on", 1), ("off", 2)]]) if rng else []
@@ -826,7 +846,9 @@ def _c05_events(rng=None):
     for cfg, qi in pre:
         head += [{"op": "cfg", "caching": cfg == "on"}, {"op": "build", "qi": qi}]
     k = len(head) + 2            # position of the first full evaluation: the one every other is compared with
-    return head + [{"op": "cfg", "caching": True}, drain_ev(1), drain_ev(1, eqto=k), drain_ev(1, eqto=k),
+    # b3: stage B3 of the mechanism model predicts the exact rows of the first three (cached) evaluations
+    return head + [{"op": "cfg", "caching": True}, dict(drain_ev(1), b3=b3), dict(drain_ev(1, eqto=k), b3=b3),
+                   dict(drain_ev(1, eqto=k), b3=b3),
                    {"op": "cfg", "caching": False}, drain_ev(2, eqto=k), drain_ev(2, eqto=k),
                    # the same expression object under the other configuration, back and forth
                    drain_ev(1, eqto=k), {"op": "cfg", "caching": True}, drain_ev(2, eqto=k), drain_ev(1, eqto=k)]
@@ -844,6 +866,18 @@ def check_C05(tier, seed, extra_programs=None):
     run.assumptions = QUERY_ASSUMPTIONS
     qc = QueryCheck(run)
     findings = [f for f in load_findings() if f["property"] == "C05"]
+    # Layer B, stage B3 (operator result caches), first evaluation and re-evaluation against the denotation:
+    #  - two-variable programs: holds with the descent the code has;
+    #  - three independent variables under and_/or_: holds with the complete descent, and with the code's descent TLC
+    #    finds the programs of finding F2 (the deviation model must break the obligation, else F2 is mis-recorded)
+    b3 = dict(MaxNot=1, NeedNot=False, AndLeftTrueNeedsFalseSet=True)
+    run.mc("MechCheck", "b3-two-variables", constants=dict(b3, G="G12", NV=2, LeafLimit=8 if quick else 16, MaxLeaves=2,
+                                                            PreferWildcardB3=True), invariants=("Mech3EqualsSem",))
+    run.mc("MechCheck", "b3-complete-descent", constants=dict(b3, G="G1x", NV=3, LeafLimit=6, MaxLeaves=3, MaxNot=0,
+                                                               PreferWildcardB3=False), invariants=("Mech3EqualsSem",))
+    run.mc("MechCheck", "b3-code-descent-F2", constants=dict(b3, G="G1x", NV=3, LeafLimit=6, MaxLeaves=3, MaxNot=0,
+                                                             PreferWildcardB3=True), invariants=("Mech3EqualsSem",),
+           expect_violation="Mech3EqualsSem", count=False)
     for nv in (1, 2, 3):
         progs = _programs(run, nv, quick, sim_quick=500, sim_full=8000, leaf_quick=10 if nv < 3 else 8,
                           leaf_full=30 if nv == 1 else (24 if nv == 2 else 16))
@@ -861,7 +895,7 @@ def check_C05(tier, seed, extra_programs=None):
         for p in progs:
             W, doms = _world_and_doms(rng, nv, quick)
             q = mk_query(p, doms, declare="random")
-            qc.add(W, [q, copy.deepcopy(q)], _c05_events(rng))
+            qc.add(W, [q, copy.deepcopy(q)], _c05_events(rng, b3=True))
     # the further grammars: for_all, sub-queries, flatten, concatenate (each re-evaluated under both configurations)
     for g, nvars, fix in (("G3", 2, None), ("G6", 3, None), ("G7i", 1, _no_repeats), ("G7o", 1, _no_repeats), ("G7c", 2, None)):
         gp = run.export("GenQuery", f"{g}-bfs", "PROG", constants=dict(G=g, NV=2, LeafLimit=12 if quick else 40, MaxLeaves=2, MaxNot=1,
@@ -1431,6 +1465,13 @@ def check_C18(tier, seed):
         if len(progs) > cap:
             progs = _sample(rng, progs, cap)
             run.exhaustive = False
+        if nv == 2:
+            # left-deep chains of four conditions (operators nested under operators) with their rewritten variants
+            deep = run.export("GenQuery", "G2n-rw", "PROGRW", constants=dict(G="G2n", NV=2, LeafLimit=3 if quick else 5, MaxLeaves=4,
+                                                                            MaxNot=0, NeedNot=False),
+                              invariants=("ExportRW",), count=False)
+            deep = [pr for pr in deep if count_nodes(pr["orig"]["cond"], "cmp") == 4]
+            progs = progs + rng.sample(deep, min(len(deep), 500 if quick else 6000))
         for pr in progs:
             p = pr["orig"]
             W, doms = _world_and_doms(rng, nv, quick)
